@@ -45,11 +45,11 @@ def spaces(ctx):
     """name -> (pages, behaviours (v1, v2, via1, via2), TLC versions, TLC hows)"""
     if ctx.tier == "quick":
         return {
-            "attributes": (P.attribute_pages(ntexts=8, nconfs=5, nheights=4, ncoords=3, region_attrs=True), QUICK_ATTR_BEH),
+            "attributes": (P.attribute_pages(ntexts=8, nconfs=5, nheights=4, ncoords=5, region_attrs=True), QUICK_ATTR_BEH),
             "structure": (P.structure_pages(["r1", "r2", "r3"], [0, 7], {"r1": 2, "r3": 1}), QUICK_STRUCT_BEH),
         }
     return {
-        "attributes": (P.attribute_pages(ntexts=12, nconfs=7, nheights=5, ncoords=4, region_attrs=True),
+        "attributes": (P.attribute_pages(ntexts=12, nconfs=7, nheights=5, ncoords=6, region_attrs=True),
                        QUICK_ATTR_BEH + [(1, 1, "ctor", "ctor"), (2, 2, "string", "string")]),
         "structure": (P.structure_pages(["r1", "r2", "r3"], [0, 1, 7], {"r1": 2, "r3": 1}),
                       [(v1, v2, a, b, pm) for (v1, v2), (a, b) in zip([(1, 1), (2, 2), (1, 2), (2, 1)] * 3, ALL_VIAS)
@@ -213,7 +213,7 @@ def run(ctx):
     if ctx.tier == "thorough":
         # seeded concrete strings: every token class instantiated with fresh random XML-legal Unicode
         rng = random.Random(ctx.seed * 7919 + 17)
-        pages = P.attribute_pages(ntexts=12, nconfs=3, nheights=3, ncoords=2, region_attrs=True)
+        pages = P.attribute_pages(ntexts=12, nconfs=3, nheights=3, ncoords=4, region_attrs=True)
         two = two_by_two_pages()
         cases = []
         for rep in range(6):
